@@ -24,6 +24,7 @@ static void key_setup(void) {
     memcpy(KMAC[0], vf_station[ST_M1], 6); KGEN[0] = 0x0101;
     memcpy(KMAC[1], vf_station[ST_M1], 6); KGEN[1] = 0x0102;
     memcpy(KMAC[2], vf_station[A.a == 1 ? ST_M3 : ST_M2], 6); KGEN[2] = 0x0101;
+    if (A.a == 1) { memcpy(KMAC[2], vf_station[ST_M1], 6); KGEN[2] = 0x0201; }      /* second key set: one mapper, generations that differ in the low byte (0x0101 / 0x0102) and in the high byte only (0x0101 / 0x0201) */
     for (int i = 0; i < NFILL; i++) { uint8_t m[6] = {0x00, 0xaa, 0xbb, 0xcc, 0xdd, (uint8_t)i}; memcpy(KMAC[NPK + i], m, 6); KGEN[NPK + i] = (uint16_t)(100 + i); }
 }
 static int msize(void) { int n = 0; for (int i = 0; i < NPK + NFILL; i++) n += M.e[i].used; return n; }
